@@ -396,6 +396,8 @@ type FuncContract struct {
 	Pure     bool // modelled as an uninterpreted function of its arguments
 	MayPanic bool
 	Params   []string // names in the contract header (receiver first if any)
+	ParamTypes []string // their types as written in the header (receiver first), "" when unnamed
+	ResultType string   // type of a single result, as written
 	Results  []string
 	Clauses  []*Clause
 	Modifies []string // raw modifies items
@@ -938,6 +940,7 @@ func parseHeader(pkgPath, hdr string, fc *FuncContract) error {
 			rn = r.Names[0].Name
 		}
 		fc.Params = append(fc.Params, rn)
+		fc.ParamTypes = append(fc.ParamTypes, exprText(r.Type))
 		fc.RecvName = rn
 		ts := exprText(r.Type)
 		ptr := strings.HasPrefix(ts, "*")
@@ -970,9 +973,11 @@ func parseHeader(pkgPath, hdr string, fc *FuncContract) error {
 		for _, p := range fd.Type.Params.List {
 			if len(p.Names) == 0 {
 				fc.Params = append(fc.Params, "_")
+				fc.ParamTypes = append(fc.ParamTypes, exprText(p.Type))
 			}
 			for _, n := range p.Names {
 				fc.Params = append(fc.Params, n.Name)
+				fc.ParamTypes = append(fc.ParamTypes, exprText(p.Type))
 			}
 			if fc.Lemma || strings.HasPrefix(fd.Name.Name, "Lemma") {
 				for range p.Names {
@@ -980,6 +985,9 @@ func parseHeader(pkgPath, hdr string, fc *FuncContract) error {
 				}
 			}
 		}
+	}
+	if fd.Type.Results != nil && len(fd.Type.Results.List) == 1 && len(fd.Type.Results.List[0].Names) <= 1 {
+		fc.ResultType = exprText(fd.Type.Results.List[0].Type)
 	}
 	if fd.Type.Results != nil {
 		for _, p := range fd.Type.Results.List {
